@@ -16,7 +16,7 @@ Skipped == {"cancel", "cl_begin"}
 CloudOf(lst) == [e \in Enis |-> IF \E i \in 1..Len(lst) : lst[i].e = e
                                 THEN [on |-> TRUE, as |-> Rng(lst[CHOOSE i \in 1..Len(lst) : lst[i].e = e].as)]
                                 ELSE NoEni]
-RecOf(x) == [c |-> x.c, e |-> x.e, a |-> x.a, s |-> x.sticky]
+RecOf(x) == [c |-> x.c, e |-> x.e, a |-> x.a, a6 |-> x.a6, s |-> x.sticky]
 DiskOf(lst) == [p \in Pods |-> IF \E i \in 1..Len(lst) : lst[i].p = p
                                THEN RecOf(lst[CHOOSE i \in 1..Len(lst) : lst[i].p = p])
                                ELSE NoRec]
@@ -36,7 +36,7 @@ TDelB    == IsEv("del_begin") /\ DelBegin(Log[l].p)
 TWrEnd   == l <= Len(Log) /\ Log[l].ev \in {"put_end", "del_end", "raw_put_end", "raw_del_end"} /\ l' = l + 1 /\ WriteEnd(Log[l].p, Log[l].ok)
 TRawPut  == IsEv("raw_put_begin") /\ LET x == Log[l] IN RawBegin(x.p, RecOf(x))
 TRawDel  == IsEv("raw_del_begin") /\ RawBegin(Log[l].p, NoRec)
-TRet     == IsEv("rpc_ret") /\ LET x == Log[l] IN RpcRet(x.r, x.ok, x.code, x.e, x.a)
+TRet     == IsEv("rpc_ret") /\ LET x == Log[l] IN RpcRet(x.r, x.ok, x.code, x.e, x.a, x.a6)
 TGcCall  == IsEv("gc_call") /\ GcCall
 TLocal   == IsEv("k8s_localpods") /\ LocalPods(Rng(Log[l].live), Log[l].err)
 TExist   == IsEv("k8s_podexist") /\ LET x == Log[l] IN PodExist(x.p, x.exist, x.err, x.cons)
